@@ -27,7 +27,9 @@ TEXT["C01"] = dict(
     text="Seeded sampling of generated coroutine/generator/async-generator programs (with/async with x try/loops/if/match x every leave kind, "
     "managers that trap/raise/swallow inside enter/exit, generator-based managers, exit stacks) x driver schedules (send, throw of caught and uncaught "
     "exceptions, close, asend/athrow/aclose). At every suspension the real extract() and contexts_active_in_frame() are compared with the shadow the "
-    "managers keep themselves (identity, order, is_async, is_exiting) and any InspectionWarning is a violation. CPython 3.9-3.12. Sampling: evidence, not proof.",
+    "managers keep themselves (identity, order, is_async, is_exiting) and any InspectionWarning is a violation. CPython 3.9-3.12. Sampling: evidence, not proof. "
+    "Swarm features: recursion, equal-comparing / falsy managers, dedicated productions for with bodies that end in an inner block whose last instruction is a swallowed raise and for try/with/return/finally-raise; "
+    "in a quarter of the runs some managers provide their exit method as a staticmethod: their obj cannot be known (reported as KNOWN-FINDING K2), everything else about such frames must still be exact.",
     note="Trusted: placement of the shadow marks (sim/world/rt.py); the generated grammar as approximation of 'every shape the compiler can emit'; "
     "driver never close()s while an @asynccontextmanager generator is between resume and finish (CPython then ends __aexit__ without running the generator: shadow would be stale).",
     design_ref="5 (C01), 2.4",
@@ -60,7 +62,8 @@ TEXT["C09"] = dict(
     text="At every suspension and probe: a non-exiting @contextmanager/@asynccontextmanager context must carry as inner_stack exactly the manager's generator chain "
     "(incl. yield-from sub-generators) with exact contexts recursively; an exiting one has no inner_stack and its generator frame is in the main series; an ExitStack/AsyncExitStack "
     "context has one child per registered and not-yet-run callback in order, with obj, is_async and a description naming the registration method "
-    "({enter_context, push(manager)} and {enter_async_context, push_async_exit(manager)} identified, as contextlib stores them identically).",
+    "({enter_context, push(manager)} and {enter_async_context, push_async_exit(manager)} identified, as contextlib stores them identically). "
+    "Swarm features of the program world apply: managers that all compare equal, managers that are falsy, recursion, nested exit stacks, and (C09 legs only) managers whose exit callable is an object without __name__.",
     note="Trusted: the world's registration log (wrappers around the ExitStack methods) and 'started' marks set by the registered callables themselves.",
     design_ref="5 (C09)",
 )
